@@ -85,6 +85,8 @@ type Op struct {
 	// read options (get, query, scan, batchget): they may narrow what THIS call returns, never what is stored
 	AttrsToGet []string `json:"attrstoget,omitempty"` // legacy AttributesToGet
 	Consistent bool     `json:"consistent,omitempty"` // ConsistentRead
+	// CondSet: send ConditionExpression even when Cond is empty or blank (a pointer to that text, not nil)
+	CondSet bool `json:"condset,omitempty"`
 	// DoneCtx: make the call with a context that is already done ("cancelled", "expired")
 	DoneCtx string `json:"donectx,omitempty"`
 	// Scan as one worker of a parallel scan: TotalSegments > 0 sends Segment and TotalSegments
@@ -269,6 +271,16 @@ func (op Op) String() string {
 		return fmt.Sprintf("%#v", op)
 	}
 	return string(b)
+}
+
+// condExpr is the ConditionExpression pointer of a write: nil for "no condition" unless CondSet asks for the
+// (possibly empty) text itself.
+func condExpr(op Op) *string {
+	if op.Cond == "" && !op.CondSet {
+		return nil
+	}
+	c := op.Cond
+	return &c
 }
 
 // DoneContext returns a context that is already done.
